@@ -1,5 +1,7 @@
 (* C09 - what the repaired protocol lets through: a process that runs alone acquires a free stack,
-   readers join readers, a child re-enters the lock of its EUPS_LOCK_PID ancestor. *)
+   readers join readers, a child re-enters the lock of its EUPS_LOCK_PID ancestor.
+   The runs are followed one file-system call at a time with the one-step lemmas below; nothing here
+   asks Coq to normalise a whole run of [next] at once. *)
 From Eupsv Require Import Base.Base Model.Lock Proofs.LockLib Proofs.Lock.
 From Coq Require Import Lia.
 
@@ -11,18 +13,41 @@ Fixpoint solo (fx : bool) (cfg : config) (p : pid) (c : choice) (n : nat)
   | S k => match st with (d, fs, (l, i)) => solo fx cfg p c k (next fx cfg d fs l i p c) end
   end.
 
+Lemma solo_S fx cfg p c k d fs l i :
+  solo fx cfg p c (S k) (d, fs, (l, i)) = solo fx cfg p c k (next fx cfg d fs l i p c).
+Proof. reflexivity. Qed.
+
+Lemma solo_0 fx cfg p c st : solo fx cfg p c 0 st = st.
+Proof. reflexivity. Qed.
+
 Lemma run_solo fx cfg p c n : forall s,
   let r := solo fx cfg p c n (dir s, files s, (pc s p, tries s p)) in
   let s' := run_gen fx cfg s (repeat (p, c) n) in
   dir s' = fst (fst r) /\ files s' = snd (fst r) /\ pc s' p = fst (snd r) /\ tries s' p = snd (snd r) /\
   (forall q, q <> p -> pc s' q = pc s q).
 Proof.
-  induction n as [|k IH]; intro s; cbn [solo repeat run_gen].
+  induction n as [|k IH]; intro s.
   - cbn. auto.
-  - destruct (step_fields fx cfg s p c) as (d' & fs' & l' & i' & N & E).
-    specialize (IH (step_gen fx cfg s p c)). rewrite N. rewrite E in IH |- *. cbn [dir files pc tries] in IH.
-    rewrite !upd_same in IH. destruct IH as (A & B & C & D & F). repeat split; try assumption.
+  - cbv zeta. rewrite solo_S. change (repeat (p, c) (S k)) with ((p, c) :: repeat (p, c) k).
+    change (run_gen fx cfg s ((p, c) :: repeat (p, c) k))
+      with (run_gen fx cfg (step_gen fx cfg s p c) (repeat (p, c) k)).
+    destruct (step_fields fx cfg s p c) as (d' & fs' & l' & i' & N & E).
+    specialize (IH (step_gen fx cfg s p c)). cbv zeta in IH. rewrite N. rewrite E in IH |- *.
+    cbn [dir files pc tries] in IH. rewrite !upd_same in IH. destruct IH as (A & B & C & D & F).
+    repeat split; try assumption.
     intros q Hq. rewrite (F q Hq). now apply upd_other.
+Qed.
+
+(* the form in which it is used: once the local run is known, so is the global one *)
+Lemma run_solo_eq fx cfg p c n s d' fs' l' i' :
+  solo fx cfg p c n (dir s, files s, (pc s p, tries s p)) = (d', fs', (l', i')) ->
+  dir (run_gen fx cfg s (repeat (p, c) n)) = d' /\
+  files (run_gen fx cfg s (repeat (p, c) n)) = fs' /\
+  pc (run_gen fx cfg s (repeat (p, c) n)) p = l' /\
+  (forall q, q <> p -> pc (run_gen fx cfg s (repeat (p, c) n)) q = pc s q).
+Proof.
+  intro H. destruct (run_solo fx cfg p c n s) as (A & B & C & _ & F). cbv zeta in *.
+  rewrite H in A, B, C. cbn [fst snd] in A, B, C. auto.
 Qed.
 
 Lemma mem_single_ne p r : p <> r -> mem p [r] = false.
@@ -30,6 +55,45 @@ Proof. intro H. cbn. apply not_eq_sym in H. apply Nat.eqb_neq in H. now rewrite 
 
 Lemma held_holds s p : pc s p = LHeld -> holds s p.
 Proof. intro H. unfold holds, holdsb. now rewrite H. Qed.
+
+(* ---- one call of the repaired protocol at a time *)
+
+Section Steps.
+Variable cfg : config.
+Notation nx := (next true cfg).
+
+Lemma next_mkdir_free fs i p c : nx false fs LMkdir i p c = (true, fs, (LScanX, i)).
+Proof. reflexivity. Qed.
+
+Lemma next_mkdir_busy_sh fs i p c : kind_of cfg p = Sh -> nx true fs LMkdir i p c = (true, fs, (LExists, i)).
+Proof. intro K. cbn [next]. now rewrite K. Qed.
+
+Lemma next_mkdir_busy_ex fs i p c : kind_of cfg p = Ex -> nx true fs LMkdir i p c = (true, fs, (LListAll, i)).
+Proof. intro K. cbn [next]. now rewrite K. Qed.
+
+Lemma next_exists_yes fs i p c : nx true fs LExists i p c = (true, fs, (LScanX, i)).
+Proof. reflexivity. Qed.
+
+Lemma next_listall_root d fs i p c : only_root cfg p fs = true -> nx d fs LListAll i p c = (d, fs, (LScanX, i)).
+Proof. intro H. cbn [next]. now rewrite H. Qed.
+
+Lemma next_scan_none d fs i p c : filter (isEx cfg) fs = [] -> nx d fs LScanX i p c = (d, fs, (LCreate, i)).
+Proof. intro H. cbn [next]. now rewrite H. Qed.
+
+Lemma next_scan_one d fs i p c q : filter (isEx cfg) fs = [q] -> nx d fs LScanX i p c = (d, fs, (LScanX2, i)).
+Proof. intro H. cbn [next]. now rewrite H. Qed.
+
+Lemma next_scan2_root d fs i p q :
+  filter (isEx cfg) fs = [q] -> is_root cfg p q = true -> nx d fs LScanX2 i p 0 = (d, fs, (LCreate, i)).
+Proof. intros H R. cbn [next]. rewrite H. unfold pick. cbn. now rewrite R. Qed.
+
+Lemma next_create fs i p c : nx true fs LCreate i p c = (true, add p fs, (LValidate, i)).
+Proof. reflexivity. Qed.
+
+Lemma next_validate_ok d fs i p c : conflict cfg p fs = false -> nx d fs LValidate i p c = (d, fs, (LHeld, i)).
+Proof. intro H. cbn [next]. now rewrite H. Qed.
+
+End Steps.
 
 Section Live.
 Variable cfg : config.
@@ -41,14 +105,18 @@ Lemma solo_free_acquires s p c :
   pc s' p = LHeld /\ files s' = [p] /\ dir s' = true /\ (forall q, q <> p -> pc s' q = pc s q).
 Proof.
   intros D F L. cbv zeta. unfold run.
-  destruct (run_solo true cfg p c 4 s) as (A & B & C & _ & E).
-  rewrite D, F, L in *. rewrite A, B, C. clear A B C.
-  cbn [solo next filter add mem fst snd].
   assert (HC : conflict cfg p [p] = false).
   { destruct (kind_of cfg p) eqn:K.
     - apply conflict_false_sh; [assumption|]. intros q [<-|[]]. now left.
     - apply conflict_false_ex; [assumption|]. intros q [<-|[]]. now left. }
-  rewrite HC. cbn. auto.
+  assert (E : solo true cfg p c 4 (dir s, files s, (pc s p, tries s p)) = (true, [p], (LHeld, tries s p))).
+  { rewrite D, F, L.
+    rewrite solo_S, next_mkdir_free.
+    rewrite solo_S, next_scan_none by reflexivity.
+    rewrite solo_S, next_create. change (add p []) with [p].
+    rewrite solo_S, next_validate_ok by assumption.
+    apply solo_0. }
+  destruct (run_solo_eq true cfg p c 4 s _ _ _ _ E) as (A & B & C & O). auto.
 Qed.
 
 (* a reader joins whatever readers are there: no exclusive lock file in sight *)
@@ -67,23 +135,21 @@ Proof.
   { intros x Hx. apply in_add in Hx. destruct Hx as [->|Hx]; auto. }
   assert (HC : conflict cfg q (add q (files s)) = false).
   { apply conflict_false_sh; [assumption|]. intros x Hx. right. right. now apply A'. }
-  destruct (dir s) eqn:D.
-  - exists 5. cbv zeta. unfold run.
-    destruct (run_solo true cfg q c 5 s) as (R1 & R2 & R3 & _ & R5).
-    rewrite D, L in *. cbn [solo next] in R1, R2, R3. rewrite K in R1, R2, R3. cbn [solo next] in R1, R2, R3.
-    rewrite FX in R1, R2, R3. cbn [solo next] in R1, R2, R3. rewrite HC in R1, R2, R3.
-    cbn [fst snd] in R1, R2, R3.
-    repeat split; try assumption.
-    + rewrite R2. assumption.
-    + intros x _. assumption.
-  - exists 4. cbv zeta. unfold run.
-    destruct (run_solo true cfg q c 4 s) as (R1 & R2 & R3 & _ & R5).
-    rewrite D, L in *. cbn [solo next] in R1, R2, R3.
-    rewrite FX in R1, R2, R3. cbn [solo next] in R1, R2, R3. rewrite HC in R1, R2, R3.
-    cbn [fst snd] in R1, R2, R3.
-    repeat split; try assumption.
-    + rewrite R2. assumption.
-    + intros x _. assumption.
+  (* from the scan onwards the two cases coincide *)
+  assert (T : forall i, solo true cfg q c 3 (true, files s, (LScanX, i)) = (true, add q (files s), (LHeld, i))).
+  { intro i. rewrite solo_S, next_scan_none by assumption.
+    rewrite solo_S, next_create. rewrite solo_S, next_validate_ok by assumption. apply solo_0. }
+  assert (G : exists n, solo true cfg q c n (dir s, files s, (pc s q, tries s q))
+                        = (true, add q (files s), (LHeld, tries s q))).
+  { rewrite L. destruct (dir s) eqn:D.
+    - exists 5. rewrite solo_S, next_mkdir_busy_sh by assumption. rewrite solo_S, next_exists_yes. apply T.
+    - exists 4. rewrite solo_S, next_mkdir_free. apply T. }
+  destruct G as [n G]. exists n. cbv zeta. unfold run.
+  destruct (run_solo_eq true cfg q c n s _ _ _ _ G) as (R1 & R2 & R3 & R5).
+  assert (H0' : I0 (run_gen true cfg s (repeat (q, c) n))).
+  { intros x Hx. exact R1. }
+  repeat split; try assumption.
+  rewrite R2. assumption.
 Qed.
 
 (* any number of readers hold together *)
@@ -117,31 +183,31 @@ Lemma reentry_proof s p q :
 Proof.
   intros R Hne D F Lp Lq.
   assert (IR : is_root cfg q p = true) by now apply is_root_true.
-  assert (HM : mem q [p] = false) by now apply mem_single_ne.
+  assert (OR : only_root cfg q [p] = true) by exact IR.
+  assert (HM : add q [p] = [q; p]) by (unfold add; now rewrite (mem_single_ne q p Hne)).
   assert (HC : conflict cfg q [q; p] = false).
   { destruct (kind_of cfg q) eqn:K.
     - apply conflict_false_sh; [assumption|]. intros x [<-|[<-|[]]]; auto.
     - apply conflict_false_ex; [assumption|]. intros x [<-|[<-|[]]]; auto. }
-  assert (tail : forall i, solo true cfg q 0 2 (true, [p], (LCreate, i)) = (true, [q; p], (LHeld, i))).
-  { intro i. cbn [solo next]. unfold add. rewrite HM. cbn [solo next]. rewrite HC. reflexivity. }
-  assert (scan : forall i, exists k, solo true cfg q 0 k (true, [p], (LScanX, i)) = (true, [q; p], (LHeld, i))).
+  (* from the creation of the file onwards *)
+  assert (T : forall i, solo true cfg q 0 2 (true, [p], (LCreate, i)) = (true, [q; p], (LHeld, i))).
+  { intro i. rewrite solo_S, next_create, HM. rewrite solo_S, next_validate_ok by assumption. apply solo_0. }
+  (* the scan sees nothing, or exactly the lock of the parent *)
+  assert (SC : forall i, exists k, solo true cfg q 0 k (true, [p], (LScanX, i)) = (true, [q; p], (LHeld, i))).
   { intro i. destruct (isEx cfg p) eqn:X.
-    - exists 4.
-      repeat (cbn [solo next filter pick length nth_error Nat.modulo Nat.divmod fst snd Nat.sub]; rewrite ?X, ?IR).
-      apply tail.
-    - exists 3. repeat (cbn [solo next filter]; rewrite ?X). apply tail. }
-  destruct (kind_of cfg q) eqn:K.
-  - destruct (scan (tries s q)) as [k Hk]. exists (2 + k). cbv zeta. unfold run.
-    destruct (run_solo true cfg q 0 (2 + k) s) as (R1 & R2 & R3 & _ & R5).
-    rewrite D, F, Lq in *. cbn [solo next Nat.add] in R1, R2, R3. rewrite K in R1, R2, R3.
-    cbn [solo next] in R1, R2, R3. rewrite Hk in R1, R2, R3. cbn [fst snd] in R2, R3.
-    split; [exact R3 | split; [exact (eq_trans (R5 p (not_eq_sym Hne)) Lp) | exact R2]].
-  - destruct (scan (tries s q)) as [k Hk]. exists (2 + k). cbv zeta. unfold run.
-    destruct (run_solo true cfg q 0 (2 + k) s) as (R1 & R2 & R3 & _ & R5).
-    rewrite D, F, Lq in *. cbn [solo next Nat.add] in R1, R2, R3. rewrite K in R1, R2, R3.
-    cbn [solo next only_root] in R1, R2, R3. rewrite IR in R1, R2, R3.
-    rewrite Hk in R1, R2, R3. cbn [fst snd] in R2, R3.
-    split; [exact R3 | split; [exact (eq_trans (R5 p (not_eq_sym Hne)) Lp) | exact R2]].
+    - assert (FX : filter (isEx cfg) [p] = [p]) by (cbn [filter]; now rewrite X).
+      exists 4. rewrite solo_S, (next_scan_one cfg true [p] i q 0 p FX).
+      rewrite solo_S, (next_scan2_root cfg true [p] i q p FX IR). apply T.
+    - assert (FX : filter (isEx cfg) [p] = []) by (cbn [filter]; now rewrite X).
+      exists 3. rewrite solo_S, next_scan_none by assumption. apply T. }
+  assert (G : exists n, solo true cfg q 0 n (dir s, files s, (pc s q, tries s q)) = (true, [q; p], (LHeld, tries s q))).
+  { rewrite D, F, Lq. destruct (SC (tries s q)) as [k Hk]. exists (S (S k)).
+    destruct (kind_of cfg q) eqn:K.
+    - rewrite solo_S, next_mkdir_busy_sh by assumption. rewrite solo_S, next_exists_yes. exact Hk.
+    - rewrite solo_S, next_mkdir_busy_ex by assumption. rewrite solo_S, next_listall_root by assumption. exact Hk. }
+  destruct G as [n G]. exists n. cbv zeta. unfold run.
+  destruct (run_solo_eq true cfg q 0 n s _ _ _ _ G) as (R1 & R2 & R3 & R5).
+  split; [exact R3 | split; [exact (eq_trans (R5 p (not_eq_sym Hne)) Lp) | exact R2]].
 Qed.
 
 End Live.
